@@ -203,4 +203,81 @@ Proof.
       rewrite <- (prefix_is_earlier o gk vals mask Hv Hm i Hi Ek).
       cbn [cum_reducer reducer_of cum_init]. apply sum_noskip_spec.
 Qed.
+(* ---- skip_na = False, min / max: the non-skipping reducers keep a null from where it is met - first position included,
+   in-band integer sentinels (NaT) included - and agree with the skipping ones on null-free data. ---- *)
+Lemma truthy_false_0 c : truthy c = false -> c = 0.
+Proof. unfold truthy. destruct (c =? 0) eqn:E; [intros _; now apply Z.eqb_eq|discriminate]. Qed.
+
+Lemma ext_noskip_clean (want_max : bool) l : forall a c, existsb (is_null o) l = false -> (c = 0 \/ is_null o a = false) ->
+  series (if want_max then r_max o else r_min o) l (a, c) = series (if want_max then r_nanmax o else r_nanmin o) l (a, c).
+Proof.
+  destruct want_max;
+  (induction l as [|x t IH]; intros a c Hl Ha; [reflexivity|];
+   cbn [existsb] in Hl; apply orb_false_iff in Hl; destruct Hl as [Hx Ht];
+   rewrite !series_cons; cbn [fst snd]; unfold r_max, r_nanmax, r_min, r_nanmin; rewrite Hx;
+   destruct (truthy c) eqn:Et;
+   [ destruct Ha as [-> | Ha]; [discriminate Et|]; rewrite Ha;
+     match goal with |- context [if ?b then _ else _] => destruct b end; (apply IH; [exact Ht|right; assumption])
+   | apply IH; [exact Ht|right; exact Hx] ]).
+Qed.
+
+Lemma ext_noskip_stuck (want_max : bool) l : forall a c, 0 < c -> is_null o a = true ->
+  is_null o (fst (series (if want_max then r_max o else r_min o) l (a, c))) = true.
+Proof.
+  destruct want_max;
+  (induction l as [|x t IH]; intros a c Hc Ha; [exact Ha|];
+   rewrite series_cons; cbn [fst snd]; unfold r_max, r_min;
+   destruct (is_null o x) eqn:Ex; [apply IH; [lia|exact Ex]|];
+   rewrite (truthy_pos c Hc), Ha; apply IH; [lia|exact Ha]).
+Qed.
+
+Lemma ext_noskip_null (want_max : bool) l : forall a c, 0 <= c -> existsb (is_null o) l = true ->
+  is_null o (fst (series (if want_max then r_max o else r_min o) l (a, c))) = true.
+Proof.
+  pose proof (ext_noskip_stuck want_max) as Hstuck.
+  destruct want_max;
+  (induction l as [|x t IH]; intros a c Hc Hl; [discriminate|];
+   cbn [existsb] in Hl; rewrite series_cons; cbn [fst snd]; unfold r_max, r_min;
+   destruct (is_null o x) eqn:Ex;
+   [ apply Hstuck; [lia|exact Ex]
+   | cbn [orb] in Hl; destruct (truthy c); [destruct (is_null o a)|];
+     try match goal with |- context [if ?b then _ else _] => destruct b end; (apply IH; [lia|exact Hl]) ]).
+Qed.
+
+Lemma nonnull_clean l : existsb (is_null o) l = false -> nonnull o l = l.
+Proof.
+  induction l as [|x t IH]; intros H; [reflexivity|]. cbn [existsb] in H. apply orb_false_iff in H. destruct H as [Hx Ht].
+  rewrite (nn_cons_val o) by exact Hx. now rewrite IH.
+Qed.
+
+Lemma ext_noskip_spec (want_max : bool) l :
+  fst (series (if want_max then r_max o else r_min o) l (null o, 0))
+  = if existsb (is_null o) l then null o else if want_max then max_exec o l else min_exec o l.
+Proof.
+  destruct (existsb (is_null o) l) eqn:E.
+  - apply null_unique. apply ext_noskip_null; [lia|exact E].
+  - rewrite (ext_noskip_clean want_max l (null o) 0 E (or_introl eq_refl)).
+    destruct want_max; [rewrite nanmax_is_max_exec|rewrite nanmin_is_min_exec]; now rewrite nonnull_clean.
+Qed.
+
+Theorem cumext_noskip_is_spec temporal (want_max : bool) gk vals ng mask :
+  length vals = length gk -> wf_mask (length gk) mask ->
+  (forall k, In k gk -> k < Z.of_nat ng) ->
+  cumulative_t o temporal (if want_max then CMax else CMin) false gk vals ng mask = cumext_noskip_spec o want_max gk vals mask.
+Proof.
+  intros Hv Hm Hng. apply (list_ext (null o)).
+  - unfold cumulative_t, cumext_noskip_spec. rewrite kscan_length, map_length, seq_length. apply rows_length; auto.
+  - intros i Hi. unfold cumulative_t in Hi. rewrite kscan_length, (rows_length gk vals mask Hv Hm) in Hi.
+    unfold cumext_noskip_spec. unfold get at 2. rewrite nth_map_seq by exact Hi.
+    assert (Hn := rows_get o gk vals mask Hv Hm i Hi).
+    destruct (get (-1) gk i <? 0) eqn:Ek.
+    + apply Z.ltb_lt in Ek. unfold get at 1, cumulative_t.
+      destruct want_max; (eapply kscan_nth_null; [exact Hn | exact Ek]).
+    + apply Z.ltb_ge in Ek.
+      assert (Hlt : (Z.to_nat (get (-1)%Z gk i) < ng)%nat).
+      { assert (In (get (-1) gk i) gk) by (apply nth_In; exact Hi). specialize (Hng _ H). lia. }
+      unfold get at 1. rewrite (cumulative_row_t o temporal (if want_max then CMax else CMin) false gk vals ng mask i _ _ _ Hn Ek Hlt).
+      rewrite <- (prefix_is_earlier o gk vals mask Hv Hm i Hi Ek).
+      destruct want_max; cbn [cum_reducer reducer_of cum_init]; [apply (ext_noskip_spec true)|apply (ext_noskip_spec false)].
+Qed.
 End CumEq.
